@@ -11,9 +11,17 @@ func init() { register("C08", "other", checkC08) }
 
 // importRules runs another property's rule function on a scratch check
 // and copies the obligations of the named rules (prefix-matched).
+// importCache: the obligations of a property's rule function, computed once
+// per process (several properties reuse the same rules).
+var importCache = map[string]*Check{}
+
 func importRules(c *Check, from string, fn checkFn, prefix string, rules ...string) int {
-	sub := NewCheck(from, "other", c.Tier, c.P)
-	fn(sub)
+	sub := importCache[from]
+	if sub == nil {
+		sub = NewCheck(from, "other", c.Tier, c.P)
+		importCache[from] = sub // registered first: a cyclic import sees the (still empty) check instead of recursing for ever
+		fn(sub)
+	}
 	n := 0
 	for _, o := range sub.Obls {
 		keep := o.Rule == "anchor" || o.Rule == "floor"
